@@ -398,6 +398,8 @@ pub fn check_main(engine: &'static dyn Engine, args: CheckArgs) -> i32 {
     let n = args.runs.unwrap_or_else(|| engine.runs(tier));
     let jobs = args.jobs.unwrap_or_else(|| engine.jobs());
     let prop = engine.property();
+    // run disks (tmpfs directories) of processes that were killed or died in an earlier check
+    crate::project::sweep_stale_disks();
     println!(
         "[{}] property={prop} tier={} VERIF_SEED={seed} runs={n} jobs={jobs}",
         engine.name(),
@@ -672,6 +674,7 @@ pub fn check_main(engine: &'static dyn Engine, args: CheckArgs) -> i32 {
     for l in &violation_lines {
         println!("{l}");
     }
+    crate::project::sweep_stale_disks();
     if reported > 0 {
         return 1;
     }
